@@ -613,6 +613,39 @@ Theorem C03_finder_default :
 Proof. exact fd_default_H1. Qed.
 Print Assumptions C03_finder_default.
 
+(* ... and in the scan loop: with (H1) from C03_finder_default, (H2) for MinRequiredLength and (H3) *)
+Theorem C03_finder_default_scan_sound :
+  forall (R : Type) (text : list Z) (exec : Z -> option R * Z) (set_in : Z -> Z -> bool) (lower : Z -> Z)
+         (rtl : bool) (anchors ts : Z) (bm : option (Z -> bool)) (bm_scan : option (Z -> Z))
+         (o : option fdopts) (fc : option fdfc) (minreq : Z),
+    let n := zlen text in
+    let F := fd_total (fd_find_first_char_default text set_in lower rtl anchors ts bm bm_scan o fc) in
+    sc_H1_true R n rtl F exec -> sc_H1_false R n rtl F exec ->
+    sc_H2 R n rtl minreq exec -> sc_H3 R n rtl exec ->
+    forall start prevlen, 0 <= start <= n ->
+    exists r, scan n rtl minreq F exec start prevlen = Ok r /\ naive_scan n rtl exec start prevlen = Ok r.
+Proof. exact fd_default_scan_sound. Qed.
+Print Assumptions C03_finder_default_scan_sound.
+
+(* the facts in the form an analysis proof produces them: rune by rune / plain Set membership *)
+Theorem C03_prefix_fact_pointwise :
+  forall (R : Type) (text : list Z) (exec : Z -> option R * Z) eqc P,
+    (forall q, 0 <= q <= zlen text -> fd_succeeds R exec q ->
+       q + zlen P <= zlen text /\
+       forall j, 0 <= j < zlen P -> eqc (nth (Z.to_nat (q + j)) text 0) (nth (Z.to_nat j) P 0) = true) ->
+    fd_prefix_fact R text exec eqc P.
+Proof. exact fd_prefix_fact_pointwise. Qed.
+Print Assumptions C03_prefix_fact_pointwise.
+
+Theorem C03_fds_fact_of_sets :
+  forall (R : Type) (text : list Z) (exec : Z -> option R * Z) set_in sets,
+    (forall s, In s sets -> fd_fds_abbrev_ok set_in s) ->
+    (forall q, 0 <= q <= zlen text -> fd_succeeds R exec q -> forall s id, In s sets -> fs_set s = Some id ->
+       0 <= q + fs_distance s < zlen text /\ set_in id (nth (Z.to_nat (q + fs_distance s)) text 0) = true) ->
+    fd_fds_fact R text exec set_in sets.
+Proof. exact fd_fds_fact_of_sets. Qed.
+Print Assumptions C03_fds_fact_of_sets.
+
 (* ---- non-vacuity for these finders ---- *)
 
 (* [ab]*cd on "xabcdab": the matcher succeeds at 1, 2 and 3 (loop runs "ab", "b", ""); literal "cd" after the
